@@ -2417,25 +2417,6 @@ val v_start : start_res -> val0
 
 val dispatch_http : z -> val0 -> val0 option
 
-type cluster = str * nat
-
-val widths : cluster list -> nat
-
-val text : cluster list -> str
-
-val marker_width_ok : cluster list -> bool
-
-val e_MARKER_WIDTH : z
-
-val mm_loop :
-  cluster list -> z -> z -> nat -> cluster list list -> cluster list list res
-
-val marker_multi : cluster list -> cluster list list outcome res
-
-val dec_cluster : val0 -> cluster
-
-val dispatch_marker : z -> val0 -> val0 option
-
 type 'item result = 'item * z
 
 val matches_of :
@@ -2461,6 +2442,32 @@ type 'item lop =
 val trim : nat -> 'a1 list -> 'a1 list
 
 val live : 'a1 list -> 'a1 lop list -> 'a1 list list
+
+val zseq0 : z -> nat -> z list
+
+val gaps_from : z -> z -> z list -> z list
+
+val numbering_gaps : z list -> z list
+
+val set_at0 : 'a1 list -> nat -> 'a1 -> 'a1 list
+
+val number_from : z -> 'a1 list -> (z * 'a1) list
+
+val load_seq : nat -> 'a1 list -> 'a1 list * (z * 'a1) list
+
+type 'd sop0 =
+| SLine of 'd
+| SSnap of nat
+
+val lines_of : 'a1 sop0 list -> 'a1 list
+
+val reader_lops : nat -> nat -> z -> 'a1 sop0 list -> (z * 'a1) lop list
+
+val live_end : 'a1 list -> 'a1 lop list -> 'a1 list
+
+type llabel =
+| LdPush of nat
+| LdSnap of nat
 
 val chunk_size : nat
 
@@ -2519,6 +2526,59 @@ val cstep :
   snap_result list) res
 
 val cstep1 : 'a1 clist -> 'a1 cop -> 'a1 clist res
+
+type 'd bstate = { b_header : 'd list; b_next : z }
+
+val b_init : 'a1 bstate
+
+val build : nat -> 'a1 bstate -> 'a1 -> (z * 'a1) option * 'a1 bstate
+
+type 'd lstate = { ls_cl : (z * 'd) clist;
+                   ls_snaps : (z * 'd) snap_result list; ls_b : 'd bstate;
+                   ls_q : 'd list list }
+
+val ld_init : 'a1 list list -> 'a1 lstate
+
+val ld_step : nat -> 'a1 lstate -> llabel -> 'a1 lstate res
+
+val ld_run : nat -> 'a1 lstate -> llabel list -> 'a1 lstate res
+
+val v_item : (z * z) -> val0
+
+val v_items : (z * z) list -> val0
+
+val as_label : val0 -> llabel
+
+val as_sop0 : val0 -> z sop0
+
+val v_flat : (z * z) list list res -> val0
+
+val v_lens : (z * z) list list res -> val0
+
+val d_loader : val0 -> val0
+
+val d_reader : val0 -> val0
+
+val dispatch_loader : z -> val0 -> val0 option
+
+type cluster = str * nat
+
+val widths : cluster list -> nat
+
+val text : cluster list -> str
+
+val marker_width_ok : cluster list -> bool
+
+val e_MARKER_WIDTH : z
+
+val mm_loop :
+  cluster list -> z -> z -> nat -> cluster list list -> cluster list list res
+
+val marker_multi : cluster list -> cluster list list outcome res
+
+val dec_cluster : val0 -> cluster
+
+val dispatch_marker : z -> val0 -> val0 option
 
 val query_cache_max : nat
 
@@ -2702,19 +2762,19 @@ type ('item, 'pat) event =
 | EInvalidate
 | EIter of bool * ('item, 'pat) label0 list
 
-type ('item, 'pat) lstate = { l_m : 'item mstate; l_box : ('item, 'pat) box;
-                              l_pubs : (('item, 'pat) request * 'item merger)
-                                       list; l_glast : nat }
+type ('item, 'pat) lstate0 = { l_m : 'item mstate; l_box : ('item, 'pat) box;
+                               l_pubs : (('item, 'pat) request * 'item
+                                        merger) list; l_glast : nat }
 
-val linit : bool -> revision -> ('a1, 'a2) lstate
+val linit : bool -> revision -> ('a1, 'a2) lstate0
 
 val lstep :
-  ('a1, 'a2) penv -> ('a1, 'a2) lstate -> ('a1, 'a2) event -> ('a1, 'a2)
-  lstate res
+  ('a1, 'a2) penv -> ('a1, 'a2) lstate0 -> ('a1, 'a2) event -> ('a1, 'a2)
+  lstate0 res
 
 val lrun :
-  ('a1, 'a2) penv -> ('a1, 'a2) lstate -> ('a1, 'a2) event list -> ('a1, 'a2)
-  lstate res
+  ('a1, 'a2) penv -> ('a1, 'a2) lstate0 -> ('a1, 'a2) event list -> ('a1,
+  'a2) lstate0 res
 
 type wpat = { wp_text : str; wp_ckey : str; wp_cacheable : bool;
               wp_sortable : bool; wp_empty : bool; wp_tab : (z * z) list;
@@ -3767,7 +3827,7 @@ val v_outp : outp -> val0
 
 val v_piece : piece -> val0
 
-val v_item : item2 -> val0
+val v_item0 : item2 -> val0
 
 val as_optitem : val0 -> item2 option
 
@@ -3812,7 +3872,7 @@ val final_offset : z -> z -> z -> z
 
 val header_rows : z -> z -> z -> z
 
-val zseq0 : z -> nat -> z list
+val zseq1 : z -> nat -> z list
 
 val visible_lines : z -> z -> z -> z -> z list
 
@@ -3985,7 +4045,7 @@ val as_args : val0 -> args
 
 val as_seen : val0 -> seen_cmd
 
-val as_label : val0 -> label1
+val as_label0 : val0 -> label1
 
 val vproc : proc -> val0
 
@@ -4281,7 +4341,7 @@ val split_records : z -> str -> str list
 
 type item5 = nat * str
 
-val number_from : nat -> str list -> item5 list
+val number_from0 : nat -> str list -> item5 list
 
 val header_of : nat -> str list -> str list
 
@@ -4369,12 +4429,12 @@ val run_ops :
   nat -> 'a1 chunklist -> 'a1 clop list -> ('a1 chunklist * 'a1 clobs list)
   res
 
-type bstate = { b_header : str list; b_index : nat }
+type bstate0 = { b_header0 : str list; b_index : nat }
 
-val build : nat -> bstate -> str -> bstate * item5 option
+val build0 : nat -> bstate0 -> str -> bstate0 * item5 option
 
 val ingest :
-  nat -> nat -> bstate -> item5 chunklist -> str list -> (bstate * item5
+  nat -> nat -> bstate0 -> item5 chunklist -> str list -> (bstate0 * item5
   chunklist) res
 
 val pipeline :
@@ -4388,7 +4448,7 @@ val streaming_rule_old : fopts -> bool
 
 val streaming_filter : fopts -> bool
 
-val build_all : nat -> bstate -> str list -> bstate * item5 list
+val build_all : nat -> bstate0 -> str list -> bstate0 * item5 list
 
 val filter_run_with :
   (fopts -> bool) -> nat -> nat -> nat -> fopts -> str -> nat list -> (str
@@ -4397,7 +4457,7 @@ val filter_run_with :
 val filter_run :
   nat -> nat -> nat -> fopts -> str -> nat list -> (str list * item5 list) res
 
-type cstate = { c_b : bstate; c_cs : item5 chunklist; c_snap0 : item5 list;
+type cstate = { c_b : bstate0; c_cs : item5 chunklist; c_snap0 : item5 list;
                 c_keep : bool }
 
 val cinit : cstate
@@ -4593,7 +4653,7 @@ val nLc0 : z
 
 val lines_of_aux : str -> str -> str list
 
-val lines_of : str -> str list
+val lines_of0 : str -> str list
 
 val wrap_line : nat -> nat -> nat -> nat -> bool -> str -> (bool * str) list
 
